@@ -3,7 +3,8 @@ from ._engine import engine_check
 
 
 def run(ctx):
-    return engine_check(ctx, "PropC06", [("restarts", 1500, 40000), ("restarts_after_fault", 600, 15000, "run_restarts_after_fault")],
+    return engine_check(ctx, "PropC06", [("restarts", 1500, 40000), ("restarts_after_fault", 600, 15000, "run_restarts_after_fault"),
+                         ("restarts_fallback_rename", 800, 15000)],
                         "run with restarts rejected (C06: outcome differs from the uninterrupted one, something was re-transferred or "
                         "conflicted, the stored cursor was ahead of the applied events, or storage/index differ from memory)",
                         stream_b="C06", runner_name="run_restarts",
